@@ -33,6 +33,11 @@ def run(prop, tier, seed, ctx):
     ctx.cov["exhaustive"] = True
     for m in mism:
         fields = [f.split(":[")[0] for f in m["fields"]]
+        if fields and all(f.endswith("-earlier-section") for f in fields):
+            # one defect whatever the action: frames of code compiled from another section get the current offset
+            ctx.violation("C17|line:frame-of-another-section", "after step %d (%s, %s mode): a failure inside a function defined by "
+                          "another section is reported on %s" % (m["step"], m["action"], m["mode"], m["observed"].get("wrong_lines")), m)
+            continue
         ctx.violation("C17|%s|%s|%s" % ("+".join(fields), m["action"], m["mode"]),
                       "after step %d (%s, %s mode, file %s) real state differs from the specification in %s: observed %s expected %s%s" % (
                           m["step"], m["action"], m["mode"], "".join(m["file"]).replace("\n", "/"), m["fields"],
